@@ -19,6 +19,10 @@ type Scenario struct {
 	Prop string
 	// Gen draws a random plan (thorough selects the deeper bounds).
 	Gen func(r *Rand, thorough bool) *Plan
+	// GenIso draws a plan for an isolated run: one run in a process of its
+	// own, used for workloads in which package-level state of the library
+	// matters (two instances alive side by side). May be nil.
+	GenIso func(r *Rand, thorough bool) *Plan
 	// Enum lists the systematically enumerated plans of the tier (may be nil).
 	Enum func(thorough bool) []*Plan
 	// Build creates the system under test and the environment tasks. It runs
